@@ -8,15 +8,21 @@ classes is wrapped by a counting shim for the duration of a case (class-level di
 restored; no source hook), and four probe factories are registered with default settings.
 
 Per operation the adaptor emits
-  * the model line: the operation described as primitive effects (which object's which cell was
-    rewritten by which method, structural inserts/removes, glyph add/delete/rename).  Contents are
-    opaque to the model; guards that make a call a no-op (`setStartPoint` on an open contour, equal
-    value assigned, ...) are evaluated by the adaptor on the pre-state; the structural effect of the
-    compound glyph mutators (clear*, decompose*, copyDataFromGlyph, move) is read off the
-    implementation (lists of children before/after);
+  * the model line: public calls as `(call receiver mutator eff|same [argument])` - `same` = the condition of
+    the method's no-op guard holds in the state before the call (equal value assigned, `setStartPoint` on an
+    open contour, ...), evaluated here on the real objects; what a `same` call does and which content cells an
+    effective call rewrites is decided by the TABLE in lean/DefconModel/ReprCells.lean; structural inserts /
+    removes, glyph add / delete / rename as primitives; `(hold obj)` / `(release obj)` / `(disable obj)` /
+    `(enable obj)` for the user's notification controls; `(l1 item)` for the second layer; and `(obs ...)`, the
+    content cells (points, identifiers, component data, glyph attributes, child lists, groups dict) whose
+    FINGERPRINT on the real objects changed during the operation.  The structural effect of decomposeComponent /
+    decomposeAllComponents / copyDataFromGlyph / pen drawing (new objects, new ids) is still read off the
+    implementation (lists of children before / after);
   * the implementation's observable bookkeeping: for requests the number of factory invocations they
-    caused, and after every operation `representationKeys()` of every live object.
-The model answers the same two things; they are diffed line by line.
+    caused, and after every operation `representationKeys()` of every live object of both layers.
+The model answers the same things and a verdict on the observed cells (`(cells undeclared missing)`: cells that
+changed although the model rewrote none of them, cells a table row says must change that did not); they are diffed
+line by line.
 
 DIRECT ORACLE (independent of the Lean model), evaluated after every operation:
   stale      every value cached in any attached object equals a fresh call of the registered factory
@@ -25,6 +31,12 @@ DIRECT ORACLE (independent of the Lean model), evaluated after every operation:
              every value returned by a request equals a fresh call too;
   runs-once  between two mutating operations no (object, name, kwargs) had its factory run twice;
   separate   different kwargs never share an entry (the probes return their kwargs).
+While the user holds notifications, `stale` exempts the objects ABOVE a held object (the held object, its glyph, the
+components on that glyph, their glyphs ...): the property quantifies over requests and public mutators, not over
+holdNotifications / disableNotifications (Props.C03.stale_inside_hold is the witness that a value requested inside
+a hold can be stale); everything else is judged inside the hold, everything after the release of the last hold.
+After a disableNotifications nothing is judged any more (the eviction is lost for good, disable_loses_eviction).
+A same-value call of a method that compares first is not a change for `runs-once`.
 """
 import copy
 import logging
@@ -45,17 +57,26 @@ RULE = ("op sequences over a font with <= 6 glyph names, line / cubic / quadrati
         "components, the groups dict; every public point-list / attribute / structural mutator of Contour, Component, "
         "Glyph, every dict mutator of Groups, glyph add / delete / rename, interleaved with requests for every "
         "built-in representation, four counting probes registered with default settings (with and without kwargs), "
-        "property reads, hasCachedRepresentation / representationKeys / destroyRepresentation; non-trivial = at "
+        "property reads, hasCachedRepresentation / representationKeys / destroyRepresentation; same-value calls of every "
+        "guarded setter; blocks in which the user holds (or disables) the notifications of one to three contours / "
+        "components / glyphs / the groups (counted, nested, released in any order) around inner mutators and requests; a "
+        "second layer with overlapping glyph names (components whose base name exists in the other layer only), loose "
+        "objects moving between the layers; non-trivial = at "
         "least one request answered from the cache or recomputed AFTER a mutator touched an object that already "
         "had cached entries; distinct = distinct op lists")
 ASSUMPTIONS = [
     "Point objects are edited only through their contour's mutators (Point is documented as posting no notifications); "
     "group lists are replaced, not edited in place (documented in Groups)",
-    "the user does not hold or disable the notifications of the objects concerned, and registers no observers that "
-    "request representations from inside a notification callback",
+    "the property's histories are interleavings of requests with public mutators: holdNotifications / disableNotifications "
+    "are neither, a value requested inside a user hold may be stale (stale_inside_hold) - the oracle exempts the objects "
+    "above a held object while the hold lasts and judges everything once the holds are released (release_restores); "
+    "while anything is held the histories contain requests, cache calls and inner mutators only (no structural "
+    "operation, no base-glyph re-assignment); no observers that request representations from inside a callback in the "
+    "modelled cases (the reader cases are judged by the oracle alone)",
     "component graphs are acyclic (cycles crash defcon with RecursionError), also under renames; renames and newGlyph "
     "target names that are not present (replacing a loaded glyph leaves the old object observed: F16, C11's slice)",
-    "one layer (components resolve their base glyph in their own layer); glyphs are created in memory (lazy loading is C07)",
+    "two layers of one font (components resolve their base glyph in their own layer: other_layer_invisible); glyphs are "
+    "created in memory (lazy loading is C07)",
     "'flattened' is requested only on line / cubic outlines (fontPens' FlattenPen raises TypeError on quadratic ones)",
     "a default-registered factory on Component reads the component's own attributes only (Component.Changed is not "
     "posted for base-glyph edits; the built-in bounds factories are keyed on Component.BaseGlyphDataChanged instead)",
@@ -67,8 +88,12 @@ ASSUMPTIONS = [
 TRUSTED = [
     "harness/repr_extract.py (AST extraction of representationFactories / posted notifications / addObserver calls; "
     "syntactic: every post in a method body counts whatever branch it is in; fails closed on unknown shapes)",
-    "contents are opaque to the model: the adaptor tells it which cell a call rewrote, evaluates no-op guards on the "
-    "pre-state and reads the structural effect of compound glyph mutators off the implementation",
+    "contents are opaque to the model: the adaptor evaluates the condition of a method's guard on the pre-state (eff | same) "
+    "and fingerprints the content cells of the real objects before and after every operation; which cells a call rewrites, "
+    "what a `same` call does and the comparison with the fingerprints are the model's (ReprCells.lean); the structural "
+    "effect of decompose* / copyDataFromGlyph / pen drawing is read off the implementation",
+    "harness/repr_extract.py also extracts, per method, whether every post sits behind a test (guards) and the literal "
+    "destroyRepresentation calls (destroys): syntactic",
     "built-in factories are functions of the view defined in Repr.lean (`viewOf`): contour points; component data + "
     "base outline by name; glyph outline; groups dict - validated only through the oracle's fresh-call comparison",
 ]
@@ -2170,6 +2195,19 @@ class Impl(object):
                     self.gobj[gid] = new
                     self.gidof[id(new)] = gid
             elif what == "layerBounds":
+                # only when every factory involved can run: a request whose factory raises (an outline the segment pens
+                # refuse) leaves an empty sub-dict behind in getRepresentation, and Contour.move then raises KeyError(None)
+                # - outside the property (it says nothing about failing factories), so such requests are not made
+                for name in self.glyph_names():
+                    gg = self.layer[name]
+                    for x in gg:
+                        if not (self.flatten_ok(x, "Contour", "defcon.contour.bounds") and
+                                self.flatten_ok(x, "Contour", "defcon.contour.controlPointBounds")):
+                            return None
+                    for x in gg.components:
+                        if not (self.flatten_ok(x, "Component", "defcon.component.bounds") and
+                                self.flatten_ok(x, "Component", "defcon.component.controlPointBounds")):
+                            return None
                 self.layer.bounds
                 self.layer.controlPointBounds
         except Exception as e:
